@@ -472,4 +472,147 @@ def concatenate (parts : List (Cat V)) (allowRepeats : Bool) : Except Err (Cat V
     let data : Cat V := { uniq := r.1, idx := ie.1, ev := ie.2 ++ [starts.getLastD 0] }
     if allowRepeats then pure data else data.removeRepeats
 
+/-! ## Part 4: float values with NaN (C11)
+
+  A Python float is an ordinary number or a NaN *object*.  Two notions of "the same value" meet in
+  `categorical.py`:
+  * dict keys, `list.index`, `in` (the constructor's `unique_in_order` over the plain values) test
+    identity first and `==` second: a NaN object is the same as itself and different from every other
+    NaN object.  This is the structural equality of `FV` (`nan id` = the object `id`).
+  * the rich comparison operators (`==`, `!=`, `<`, `>`, `<=`, `>=`), which is all a
+    `ComparableArrayWrapper` delegates to (`self.unwrapped <op> other`), follow IEEE 754: a NaN is
+    unordered with everything, itself included.  This is `FV.cmp`.
+  `CategoricalData` compares through freshly made wrappers in `__eq__ … __ge__`, in `add`, `remove`
+  (`_comparable_values.index(value)`) and in `concatenate_categorical`
+  (`unique_in_order` over `_comparable_values`), hence with `FV.cmp`: the `…N` mirrors below. -/
+
+/-- a float value: number `n` (numbers are coded by their rank, so the order of the codes is the
+    order of the numbers) or the NaN object `id` -/
+inductive FV where
+  | num (n : Nat)
+  | nan (id : Nat)
+  deriving Repr, DecidableEq
+
+def FV.isNaN : FV → Bool
+  | .num _ => false
+  | .nan _ => true
+
+/-- the six comparison operators -/
+inductive CmpOp where
+  | eq | ne | lt | gt | le | ge
+  deriving Repr, DecidableEq
+
+/-- **Mirror** of `ComparableArrayWrapper.__eq__ / __ne__ / __lt__ / __gt__ / __le__ / __ge__` on
+    float values: `self.unwrapped <op> other` evaluated by Python (`__ne__` is `not self == other`). -/
+def FV.cmp : CmpOp → FV → FV → Bool
+  | .eq, .num a, .num b => a == b
+  | .eq, _, _ => false
+  | .ne, .num a, .num b => !(a == b)
+  | .ne, _, _ => true
+  | .lt, .num a, .num b => decide (a < b)
+  | .lt, _, _ => false
+  | .gt, .num a, .num b => decide (a > b)
+  | .gt, _, _ => false
+  | .le, .num a, .num b => decide (a ≤ b)
+  | .le, _, _ => false
+  | .ge, .num a, .num b => decide (a ≥ b)
+  | .ge, _, _ => false
+
+/-- **Spec**: the IEEE 754 relation between two floats: less, equal, greater or unordered (`none`,
+    as soon as one side is a NaN) -/
+def FV.order : FV → FV → Option Ordering
+  | .num a, .num b => some (compare a b)
+  | _, _ => none
+
+/-- truth of an operator under a relation: on an unordered pair only `!=` holds -/
+def CmpOp.holds : CmpOp → Option Ordering → Bool
+  | .eq, r => r == some .eq
+  | .ne, r => r != some .eq
+  | .lt, r => r == some .lt
+  | .gt, r => r == some .gt
+  | .le, r => r == some .lt || r == some .eq
+  | .ge, r => r == some .gt || r == some .eq
+
+/-- **Spec side of a comparison**: the explicit per-dump list compared element by element -/
+def specCmp (pd : List (Option FV)) (op : CmpOp) (other : FV) : List (Option Bool) :=
+  pd.map (fun o => o.map (fun x => op.holds (FV.order x other)))
+
+/-- `CategoricalData.__eq__ … __ge__` on float values:
+    `_bool_per_dump([value <op> other for value in self._comparable_values])` -/
+def Cat.cmpOp (c : Cat FV) (op : CmpOp) (other : FV) : List (Option Bool) :=
+  c.cmpPerDump (fun x => FV.cmp op x other)
+
+/-- value codes of the driver: even = number, odd = NaN object -/
+def FV.ofCode (n : Nat) : FV := if n % 2 = 0 then .num (n / 2) else .nan (n / 2)
+
+/-- the same container with every unique value replaced by its image -/
+def Cat.mapV {W : Type} (f : V → W) (c : Cat V) : Cat W := { uniq := c.uniq.map f, idx := c.idx, ev := c.ev }
+
+/-- `_comparable_values.index(value)` when `==` is the rich comparison: a value for which `nan`
+    holds equals nothing (ValueError), any other value is found where the structurally equal entry
+    is (`indexOfN_ieee` in Lemmas/CatNaN states this against `FV.cmp .eq`) -/
+def indexOfN? (nan : V → Bool) (l : List V) (v : V) : Option Nat :=
+  if nan v then none else indexOf? l v
+
+/-- the record `add` builds once the index of the value is known -/
+def Cat.addAt (c : Cat V) (event : Nat) (uniq' : List V) (vi : Nat) : Except Err (Cat V) := do
+  let ei := (c.ev.takeWhile (fun e => decide (e < event))).length
+  let e ← getNat c.ev ei
+  let after := if e = event then ei + 1 else ei
+  pure { uniq := uniq', idx := c.idx.take ei ++ [vi] ++ c.idx.drop after,
+         ev := c.ev.take ei ++ [event] ++ c.ev.drop after }
+
+/-- `CategoricalData.add(event, value)` with NaN-aware matching: a NaN is never found among the
+    unique values and is appended again, even when the very same object is already there -/
+def Cat.addN (nan : V → Bool) (c : Cat V) (event : Nat) (value : Option V) : Except Err (Cat V) :=
+  match value with
+  | some v => if nan v then c.addAt event (c.uniq ++ [v]) c.uniq.length else c.add event (some v)
+  | none => c.add event none
+
+/-- `CategoricalData.remove(value)` with NaN-aware matching: a NaN is never found (ValueError, pass) -/
+def Cat.removeN (nan : V → Bool) (c : Cat V) (v : V) : Except Err (Cat V) :=
+  if nan v then pure c else c.remove v
+
+/-- `unique_in_order(wrappers, return_inverse=True)` over freshly wrapped values: every NaN gets
+    an entry of its own (it equals no key and is found again only as the key object it is), any
+    other value goes to the first equal entry.  `acc` = keys so far. -/
+def uniqueInOrderN (nan : V → Bool) : List V → List V → List V × List Nat
+  | acc, [] => (acc, [])
+  | acc, x :: t =>
+    match indexOfN? nan acc x with
+    | some i => let r := uniqueInOrderN nan acc t; (r.1, i :: r.2)
+    | none => let r := uniqueInOrderN nan (acc ++ [x]) t; (r.1, acc.length :: r.2)
+
+/-- `concatenate_categorical(split_data, allow_repeats)` with NaN-aware merging of the unique values -/
+def concatenateN (nan : V → Bool) (parts : List (Cat V)) (allowRepeats : Bool) : Except Err (Cat V) :=
+  match parts with
+  | [] => .error .value
+  | [c] => pure c
+  | _ => do
+    if parts.any (fun c => c.ev = []) then throw Err.index
+    let starts := cumsum0 (parts.map Cat.numDumps)
+    let r := uniqueInOrderN nan [] (parts.map (·.uniq)).flatten
+    let rec go : List (Cat V) → Nat → List Nat → Except Err (List Nat × List Nat)
+      | [], _, _ => pure ([], [])
+      | c :: t, off, st :: sts => do
+        let lookup := (r.2.drop off).take c.uniq.length
+        let idx' ← takeIdx lookup c.idx
+        let ev' := c.ev.dropLast.map (· + st)
+        let rest ← go t (off + c.uniq.length) sts
+        pure (idx' ++ rest.1, ev' ++ rest.2)
+      | _ :: _, _, [] => throw Err.index
+    let ie ← go parts 0 starts
+    let data : Cat V := { uniq := r.1, idx := ie.1, ev := ie.2 ++ [starts.getLastD 0] }
+    if allowRepeats then pure data else data.removeRepeats
+
+/-- structural well-formedness without the distinctness of the unique values -/
+def Cat.WFi (c : Cat V) : Prop :=
+  strictIncNat c.ev = true ∧ c.ev.length = c.idx.length + 1 ∧ (∀ i ∈ c.idx, i < c.uniq.length)
+
+/-- every entry satisfying `p` takes the value of the last entry before it that does not
+    (`prev` to start with): the effect of `remove` on the per-dump list -/
+def fillPrevP {α : Type} (p : α → Bool) : α → List α → List α
+  | _, [] => []
+  | prev, x :: t => if p x then prev :: fillPrevP p prev t else x :: fillPrevP p x t
+
 end Categorical
